@@ -19,7 +19,8 @@ FN_NAMES = ("abs", "sqrt", "exp", "log", "sin", "cos", "tan")
 # spec -> pyiga
 # ---------------------------------------------------------------------------------------------------
 
-def build_vform(prog):
+def build_vform(prog, after_term=None):
+    """after_term(vf, index): called after every vf.add (used to interleave other API calls with the construction)"""
     from pyiga import vform as V
     d = prog["dim"]
     vf = V.VForm(d, geo_dim=prog.get("geo_dim", d), boundary=bool(prog.get("boundary")), arity=prog["arity"],
@@ -129,8 +130,10 @@ def build_vform(prog):
 
     for name, e, sym in prog.get("lets", []):
         names["let:" + name] = vf.let(name, b(e), symmetric=bool(sym))
-    for t in prog["terms"]:
+    for i, t in enumerate(prog["terms"]):
         vf.add(b(t))
+        if after_term is not None:
+            after_term(vf, i)
     return vf
 
 
